@@ -810,7 +810,15 @@ impl<'a> crate::ranger::Store<SignedEntry> for StoreInstance<'a> {
             // insert into latest table
             let key = (&e.id().namespace().to_bytes(), &e.id().author().to_bytes());
             let value = (e.timestamp(), e.id().key());
-            tables.latest_per_author.insert(key, value)?;
+            // The head is the author's greatest timestamp: an entry that arrives late (older
+            // timestamp at another key) must not move it backwards.
+            let is_head = match tables.latest_per_author.get(key)? {
+                Some(current) => e.timestamp() >= current.value().0,
+                None => true,
+            };
+            if is_head {
+                tables.latest_per_author.insert(key, value)?;
+            }
             Ok(())
         })
     }
